@@ -101,7 +101,9 @@ func TestReverseAbandoned(t *testing.T) {
 		var seenMu sync.Mutex
 		var seen []string
 		if problem == "" {
-			prov := reverse.NewProvider(srv.Client(0), pid)
+			pc := srv.Client(0)
+			defer pc.Abort() // a hijacked websocket connection outlives the server's Close
+			prov := reverse.NewProvider(pc, pid)
 			prov.AddFunction(func(tag string) string {
 				seenMu.Lock()
 				seen = append(seen, tag)
